@@ -60,7 +60,60 @@ class Summariser:
 
     # -- expression evaluation -------------------------------------------
     def cev(self, e):
+        if isinstance(e, ast.IfExp):
+            t = self.fold(e.test)
+            if t is not None:
+                return self.cev(e.body if t else e.orelse)
         return const_eval(self.repo, self.mod, e, self.cls, self._consts())
+
+    def fold(self, test):
+        """Truth of a test under the selector binding; `isinstance(<the
+        selector>, <its enum class>)` is true for every member."""
+        if isinstance(test, ast.Call) and isinstance(
+                test.func, ast.Name) and test.func.id == 'isinstance' and \
+                len(test.args) == 2 and isinstance(
+                    test.args[0], ast.Name) and \
+                test.args[0].id == self.sel_param and self.member is not None:
+            return True
+        if isinstance(test, ast.UnaryOp) and isinstance(test.op, ast.Not):
+            v = self.fold(test.operand)
+            return None if v is None else not v
+        if isinstance(test, ast.BoolOp):
+            vs = [self.fold(v) for v in test.values]
+            if isinstance(test.op, ast.And):
+                if any(v is False for v in vs):
+                    return False
+                return None if any(v is None for v in vs) else True
+            if any(v is True for v in vs):
+                return True
+            return None if any(v is None for v in vs) else False
+        return fold_test(self.repo, self.mod, test, self.cls, self._consts())
+
+    def _method(self, name):
+        if self.cls is None:
+            return None
+        o, meth = self.cls.find_method(name)
+        if meth is None and name.startswith('__') and not name.endswith('__'):
+            o, meth = self.cls.find_method(
+                '_' + self.cls.name.lstrip('_') + name)
+        return meth
+
+    def _inline_method(self, meth, e):
+        """`cls.m(s)` / `self.m(s)` / `getattr(cls, 'm')(s)`: the method's
+        summary applied to the argument (one string parameter)."""
+        if len(e.args) != 1 or e.keywords:
+            return None
+        fi = meth._func
+        ps = [a.arg for a in fi.node.args.args if a.arg not in ('self',
+                                                                'cls')]
+        if len(ps) != 1:
+            return None
+        sub = Summariser(self.repo, fi, ps[0], '#none', None)
+        sub.env = {ps[0]: self.sym(e.args[0])}
+        r = sub._block(fi.node.body)
+        if r is None or r[0] != 'return':
+            return None
+        return r[1]
 
     def _consts(self):
         d = dict(self.cenv)
@@ -200,6 +253,28 @@ class Summariser:
                 r = self._apply_const_callable(cv, e)
                 if r is not None:
                     return r
+        if isinstance(e, ast.Call):
+            # a method of the class, named directly or through getattr with
+            # a name that folds to a constant
+            f_ = e.func
+            mname = None
+            if isinstance(f_, ast.Attribute) and isinstance(
+                    f_.value, ast.Name) and f_.value.id in ('self', 'cls'):
+                mname = f_.attr
+            elif isinstance(f_, ast.Call) and isinstance(
+                    f_.func, ast.Name) and f_.func.id == 'getattr' and \
+                    len(f_.args) == 2 and isinstance(
+                        f_.args[0], ast.Name) and \
+                    f_.args[0].id in ('self', 'cls'):
+                v = self.cev(f_.args[1])
+                if isinstance(v, str):
+                    mname = v
+            if mname is not None:
+                meth = self._method(mname)
+                if meth is not None:
+                    r = self._inline_method(meth, e)
+                    if r is not None:
+                        return r
         if isinstance(e, ast.Call) and isinstance(e.func, ast.Attribute):
             meth = e.func.attr
             pair = None
@@ -385,8 +460,7 @@ class Summariser:
                         return r
                 return None
         if isinstance(st, ast.If):
-            t = fold_test(self.repo, self.mod, st.test, self.cls,
-                          self._consts())
+            t = self.fold(st.test)
             if t is None:
                 # a test on the input string (e.g. newline rejection) whose
                 # body only raises does not change the chain
